@@ -59,8 +59,10 @@ RootArgsOf(dd, i)  == {p \in UNION {ParamsOf(dd, j) : j \in Ancestors(dd, i)} :
 (* not change what i computes)                                                                                  *)
 SuppliedOnPath(dd, k, i) == \E n \in PKeys(k) : n \in AllOutputs(dd) /\ FuncOf(dd, n) \in Ancestors(dd, i) \ {i}
 
-(* what executing function i NOW, in call k, returns for its output o *)
-OutTerm(dd, k, i, o) == LET ps == dd.funcs[i].params IN Term(o, [q \in 1..Len(ps) |-> ArgVal(dd, k, i, ps[q])])
+(* what executing function i NOW, in call k, returns for its output o (PipelineStatic!ValOf without the keyword     *)
+(* short-cut; a function declared `retnone` returns None whatever its arguments)                                 *)
+OutTerm(dd, k, i, o) == LET ps == dd.funcs[i].params
+                        IN  IF ReturnsNone(dd, i) THEN NoneT ELSE Term(o, [q \in 1..Len(ps) |-> ArgVal(dd, k, i, ps[q])])
 OutTerms(dd, k, i)   == {OutTerm(dd, k, i, o) : o \in OutputsOf(dd, i)}
 OutSeq(dd, k, i)     == LET os == dd.funcs[i].outputs IN [j \in 1..Len(os) |-> OutTerm(dd, k, i, os[j])]
 IdxOf(s, x)          == CHOOSE j \in DOMAIN s : s[j] = x
@@ -252,9 +254,11 @@ IVal(dd, k, hm, n) ==
     IF PHas(k, n) THEN PGet(k, n)
     ELSE LET i == FuncOf(dd, n)  ps == dd.funcs[i].params
          IN  IF i \in DOMAIN hm THEN hm[i].v[IdxOf(dd.funcs[i].outputs, n)]
+             ELSE IF ReturnsNone(dd, i) THEN NoneT
              ELSE Term(n, [q \in 1..Len(ps) |-> IArg(dd, k, hm, i, ps[q])])
 IOutSeq(dd, k, hm, i) == LET os == dd.funcs[i].outputs  ps == dd.funcs[i].params
-                         IN  [j \in 1..Len(os) |-> Term(os[j], [q \in 1..Len(ps) |-> IArg(dd, k, hm, i, ps[q])])]
+                         IN  [j \in 1..Len(os) |-> IF ReturnsNone(dd, i) THEN NoneT
+                                                    ELSE Term(os[j], [q \in 1..Len(ps) |-> IArg(dd, k, hm, i, ps[q])])]
 
 (* functions visited by the depth-first _run: a hit stops the descent unless full_output is requested *)
 RECURSIVE IClosure(_, _, _, _)
